@@ -3,6 +3,7 @@ package props
 import (
 	"bytes"
 	"encoding"
+	"encoding/base64"
 	"encoding/gob"
 	"encoding/hex"
 	"encoding/json"
@@ -34,7 +35,22 @@ type caseC07dec struct {
 }
 
 func genScalarBytes(t *rapid.T) []byte {
-	switch gen.Pick(t, "bytesKind", 10) {
+	switch gen.Pick(t, "bytesKind", 11) {
+	case 10: // a valid encoding in ANOTHER FORMAT handed to the binary decoders: its hex text (upper or lower case, with 0x), base64,
+		// decimal digits; what a "be liberal in what you accept" fallback would swallow
+		v := ref.Bytes32(gen.Int(ref.N).Draw(t, "tv"))
+		switch gen.Pick(t, "otherFormat", 5) {
+		case 0:
+			return []byte(hex.EncodeToString(v))
+		case 1:
+			return []byte(strings.ToUpper(hex.EncodeToString(v)))
+		case 2:
+			return []byte("0x" + hex.EncodeToString(v))
+		case 3:
+			return []byte(base64.StdEncoding.EncodeToString(v))
+		default:
+			return []byte(new(big.Int).SetBytes(v).String())
+		}
 	case 8: // n with several 64-bit limbs perturbed at once
 		return ref.Bytes32(gen.PerturbWords(t, ref.N, 64))
 	case 9: // the same at 32-bit granularity
@@ -202,6 +218,12 @@ var c07dec = gen.Register(&gen.Check[caseC07dec]{
 		}
 		max := new(big.Int).Sub(new(big.Int).Lsh(big.NewInt(1), 256), big.NewInt(1))
 		var out []caseC07dec
+		for _, via := range []string{"decode", "unmarshal"} { // the hex TEXT of valid encodings handed to the binary decoders
+			for _, v := range []*big.Int{big.NewInt(0xC07), new(big.Int).Sub(ref.N, big.NewInt(7)), new(big.Int)} {
+				txt := hex.EncodeToString(ref.Bytes32(v))
+				out = append(out, mk([]byte(txt), via), mk([]byte(strings.ToUpper(txt)), via), mk([]byte("0x"+txt), via), mk([]byte(txt[:32]), via))
+			}
+		}
 		for _, via := range []string{"decode", "unmarshal"} {
 			for _, base := range []int64{1 << 32, 1 << 33} {
 				out = append(out, caseC07dec{Data: hex.EncodeToString(ref.Bytes32(big.NewInt(0xC07))), Via: via, Prior: p, Huge: base + 32})
